@@ -40,6 +40,9 @@ func (discard) Write(p []byte) (int, error) { return len(p), nil }
 type world struct {
 	fs *simfs.FS
 	r  *sim.R
+	// emptyDayOK names an (iface/day) whose directory may exist without metadata and without being
+	// part of the model (left behind by a rejected first session; C03 does not judge leftovers)
+	emptyDayOK string
 }
 
 func newWorld(r *sim.R) *world {
@@ -184,6 +187,11 @@ func (wd *world) checkStore(m *model.Store, inflight *model.Block, inflightIface
 		}
 		wantDay := m.Ifaces[k.iface][k.day]
 		isInflightDay := inflight != nil && k == inflightKey
+		if wantDay == nil && !isInflightDay && wd.emptyDayOK == fmt.Sprintf("%s/%d", k.iface, k.day) {
+			if _, ok := wd.fs.ReadRaw(tree, fmt.Sprintf("%s/.blockmeta", dayPath(k.iface, k.day, names[0]))); !ok {
+				continue
+			}
+		}
 		if wantDay == nil && !isInflightDay {
 			return nil, "day-unexpected", fmt.Sprintf("iface %s day %d: directory %s holds a day that was never written", k.iface, k.day, names[0])
 		}
